@@ -79,6 +79,49 @@ func registrations(c *Ctx, rule string) (wr, rd []registration) {
 						kc, _ = pk.TypesInfo.Uses[x].(*types.Const)
 					}
 					ce, isCall := v.(*ast.CallExpr)
+					// a registration inside `for _, k := range []Format{K1, K2, …}`: one row per element,
+					// the constructor arguments folded with k bound to the element
+					if kc == nil && isCall {
+						if kid, isId := k.(*ast.Ident); isId {
+							kobj := pk.TypesInfo.Uses[kid]
+							for _, y := range enclosing(fd.Body, n) {
+								rs, isRange := y.(*ast.RangeStmt)
+								if !isRange || rs.Value == nil || pk.TypesInfo.Defs[rs.Value.(*ast.Ident)] != kobj {
+									continue
+								}
+								cl, isLit := rs.X.(*ast.CompositeLit)
+								if !isLit {
+									continue
+								}
+								fn, _ := typeutil.Callee(pk.TypesInfo, ce).(*types.Func)
+								for _, el := range cl.Elts {
+									var ec *types.Const
+									switch x := el.(type) {
+									case *ast.SelectorExpr:
+										ec, _ = pk.TypesInfo.Uses[x.Sel].(*types.Const)
+									case *ast.Ident:
+										ec, _ = pk.TypesInfo.Uses[x].(*types.Const)
+									}
+									if ec == nil {
+										continue
+									}
+									r := registration{key: ec, pos: n.Pos(), where: fname}
+									if fn != nil {
+										r.ctor = fn.Name()
+									}
+									ev := &evaluator{p: c.P}
+									fr := &frame{pkg: pk, env: map[types.Object]value{kobj: constVal(ec)}}
+									for _, a := range ce.Args {
+										if av := ev.expr(fr, a); av.k == vConst {
+											r.args = append(r.args, av)
+										}
+									}
+									out = append(out, r)
+								}
+							}
+						}
+						return true
+					}
 					if kc == nil || !isCall || !strings.HasSuffix(kc.Type().String(), "formats.Format") {
 						return true // dynamic registration (RegisterSerializer(format, s)): not a table row
 					}
@@ -93,6 +136,61 @@ func registrations(c *Ctx, rule string) (wr, rd []registration) {
 						}
 					}
 					out = append(out, r)
+					return true
+				})
+			}
+		}
+		// the table written as one literal: map[formats.Format]Driver{K: NewX(…), …}, wherever it
+		// sits (a package-level initialiser, an init function, a snapshot published atomically)
+		for _, f := range pk.Syntax {
+			for _, dd := range f.Decls {
+				where := "package-level"
+				if fd, isFn := dd.(*ast.FuncDecl); isFn {
+					if obj, _ := pk.TypesInfo.Defs[fd.Name].(*types.Func); obj != nil {
+						where = objName(obj)
+					}
+				}
+				ast.Inspect(dd, func(n ast.Node) bool {
+					cl, isLit := n.(*ast.CompositeLit)
+					if !isLit {
+						return true
+					}
+					t := pk.TypesInfo.TypeOf(cl)
+					if t == nil {
+						return true
+					}
+					m, isMap := t.Underlying().(*types.Map)
+					if !isMap || !strings.HasSuffix(m.Key().String(), "formats.Format") {
+						return true
+					}
+					for _, el := range cl.Elts {
+						kv, isKV := el.(*ast.KeyValueExpr)
+						if !isKV {
+							continue
+						}
+						var kc *types.Const
+						switch x := kv.Key.(type) {
+						case *ast.SelectorExpr:
+							kc, _ = pk.TypesInfo.Uses[x.Sel].(*types.Const)
+						case *ast.Ident:
+							kc, _ = pk.TypesInfo.Uses[x].(*types.Const)
+						}
+						ce, isCall := kv.Value.(*ast.CallExpr)
+						if kc == nil || !isCall {
+							continue
+						}
+						fn, _ := typeutil.Callee(pk.TypesInfo, ce).(*types.Func)
+						r := registration{key: kc, pos: kv.Pos(), where: where}
+						if fn != nil {
+							r.ctor = fn.Name()
+						}
+						for _, a := range ce.Args {
+							if cv, ok := constOf(pk, a); ok {
+								r.args = append(r.args, cv)
+							}
+						}
+						out = append(out, r)
+					}
 					return true
 				})
 			}
@@ -270,7 +368,17 @@ func findSniffer(c *Ctx, rule string) *sniffer {
 		if !ok {
 			continue
 		}
-		if len(mentions(d.pkg, ifs.Body, s.recObj)) > 0 {
+		uses := len(mentions(d.pkg, ifs.Body, s.recObj)) > 0
+		if !uses {
+			// the struct may only appear as the receiver/argument of a helper: spec.jsonFormat()
+			ast.Inspect(ifs.Body, func(m ast.Node) bool {
+				if id, ok := m.(*ast.Ident); ok && objOf(d.pkg, id) == s.recObj {
+					uses = true
+				}
+				return !uses
+			})
+		}
+		if uses {
 			s.block = ifs.Body.List
 		}
 	}
@@ -359,12 +467,24 @@ func (s *sniffer) literals() (spec, spdx []string) {
 					i++
 				}
 			}
+			// a method on the declaration struct switches on its own fields
+			var recvObj types.Object
+			if fd.Recv != nil && len(fd.Recv.List) == 1 && len(fd.Recv.List[0].Names) == 1 {
+				recvObj = pk.TypesInfo.Defs[fd.Recv.List[0].Names[0]]
+			}
 			for _, sw := range findSwitches(fd.Body) {
-				id, isID := sw.Tag.(*ast.Ident)
-				if sw.Tag == nil || !isID {
+				if sw.Tag == nil {
 					continue
 				}
-				f := bound[pk.TypesInfo.Uses[id]]
+				var f *types.Var
+				switch tg := sw.Tag.(type) {
+				case *ast.Ident:
+					f = bound[pk.TypesInfo.Uses[tg]]
+				case *ast.SelectorExpr:
+					if id, isID := tg.X.(*ast.Ident); isID && recvObj != nil && pk.TypesInfo.Uses[id] == recvObj {
+						f = selectorField(pk, tg)
+					}
+				}
 				if f == nil {
 					continue
 				}
@@ -746,6 +866,61 @@ func singleDispatch(c *Ctx) {
 			return true
 		})
 		okFmt = fromOpt && fromDetect
+		// the choice may live in a helper split off this function: format, err := r.resolveFormat(f, o)
+		if !okFmt && fo != nil {
+			ast.Inspect(d.fd.Body, func(n ast.Node) bool {
+				as, ok := n.(*ast.AssignStmt)
+				if !ok || len(as.Rhs) != 1 || len(as.Lhs) == 0 || objOf(d.pkg, as.Lhs[0]) != fo {
+					return true
+				}
+				ce, isCall := as.Rhs[0].(*ast.CallExpr)
+				if !isCall {
+					return true
+				}
+				g, _ := typeutil.Callee(d.pkg.TypesInfo, ce).(*types.Func)
+				if g == nil || g.Pkg() == nil || !strings.HasPrefix(g.Pkg().Path(), modPath+"/") {
+					return true
+				}
+				gfd, gpk := c.P.FuncDecl(objName(g))
+				if gfd == nil || gfd.Body == nil {
+					return true
+				}
+				hOpt, hDetect := false, false
+				gdefs := singleDefs(gpk, gfd.Body)
+				ast.Inspect(gfd.Body, func(m ast.Node) bool {
+					rs, isRet := m.(*ast.ReturnStmt)
+					if !isRet || len(rs.Results) == 0 {
+						return true
+					}
+					r0 := rs.Results[0]
+					if sel, isSel := r0.(*ast.SelectorExpr); isSel && sel.Sel.Name == "Format" {
+						hOpt = true
+					}
+					if id, isId := r0.(*ast.Ident); isId {
+						def := gdefs[objOf(gpk, id)]
+						if def == nil {
+							// bound by a tuple assignment
+							ast.Inspect(gfd.Body, func(k ast.Node) bool {
+								if a2, ok := k.(*ast.AssignStmt); ok && len(a2.Rhs) == 1 && len(a2.Lhs) > 1 && objOf(gpk, a2.Lhs[0]) == objOf(gpk, id) {
+									def = a2.Rhs[0]
+								}
+								return true
+							})
+						}
+						if dc, isC := def.(*ast.CallExpr); isC {
+							if fn, _ := typeutil.Callee(gpk.TypesInfo, dc).(*types.Func); fn != nil && strings.HasSuffix(objName(fn), ".detectFormat") {
+								hDetect = true
+							}
+						}
+					}
+					return true
+				})
+				if hOpt && hDetect {
+					okFmt = true
+				}
+				return true
+			})
+		}
 	}
 	c.check(nU == 1 && okFmt, R, d.name, c.P.Pos(d.fd.Pos()), "one dispatch site fed by the stated or the detected format",
 		fmt.Sprintf("dispatch is not a single Unserialize call on GetFormatUnserializer(stated-or-detected format) (Unserialize calls: %d, format provenance ok: %v): auto-detected and explicit parsing can diverge", nU, okFmt))
